@@ -81,7 +81,7 @@ func NewClientConn(c net.Conn, addr string, config *ClientConfig) (Conn, <-chan 
 	}
 
 	if err := conn.clientHandshake(addr, &fullConf); err != nil {
-		c.Close()
+		conn.Close()
 		return nil, nil, nil, fmt.Errorf("ssh: handshake failed: %w", err)
 	}
 	conn.mux = newMux(conn.transport)
